@@ -65,7 +65,7 @@ Viols(e, pre) ==
         (IF e.obs.protos # Expected(e.obs) THEN {<<"C16", "reported-protocol-list-differs-from-offered">>} ELSE {})) \cup
      (IF ~e.obs.copyOK THEN {<<"C16", "returned-list-is-not-a-copy">>} ELSE {}) \cup
      \* an empty structure carries no fields and marshals to zero bytes: absent and empty are the same state
-     (IF e.op.op = "Dial" /\ e.op.stt \notin {"empty"} /\ (e.obs.statePresent # (e.op.stt # "none")) THEN {<<"C16", "client-state-presence">>} ELSE {}) \cup
+     (IF e.op.op = "Dial" /\ e.op.stt \notin {"empty"} /\ (e.obs.statePresent # (e.op.stt \notin {"none", "overriddenNil"})) THEN {<<"C16", "client-state-presence">>} ELSE {}) \cup
      (IF e.op.op = "Dial" /\ ~e.obs.stateEq THEN {<<"C16", "client-state-differs-from-supplied">>} ELSE {}) \cup
      (IF e.op.op = "Connect" /\ (e.obs.statePresent # (e.op.stt = "ok")) THEN {<<"C16", "client-state-exposed-without-verified-signature">>} ELSE {})
    ELSE {})
